@@ -198,8 +198,31 @@ def run(ctx):
                        "whole file for repository-level patterns / that linter's findings for linter-level patterns",
                        "line numbers in messages are masked before comparison (they legitimately shift)", "lazy-ignores is not a subject (its subject is the suppression comments)"]
     rng = ctx.rng()
-    files = project()
+    matrix = Counter()
+    run_flavour(ctx, rng, project(), "", matrix)
+    run_flavour(ctx, rng, exotic(project()), ":exotic-line-separators", matrix)
+    ctx.obs["matrix_cells_ok"] = sum(n for (t, s), n in matrix.items() if s == "ok")
+    ctx.obs["matrix_cells_fail"] = sum(n for (t, s), n in matrix.items() if s == "fail")
+
+
+EXOTIC = "\x0c\x0b\x1c\x1d\x1e\x85\u2028"  # what str.splitlines() breaks on and the parsers (ast, tree-sitter) do not
+
+
+def exotic(files):
+    """The same project with a first comment line that ends in the characters only str.splitlines() treats as line breaks, and
+    (Python, where a form feed is plain whitespace) a form-feed line between definitions."""
+    out = dict(files)
+    for f, text in files.items():
+        ext = f.rsplit(".", 1)[-1]
+        if ext in CM and isinstance(text, str):
+            out[f] = "%s section %s\n" % (CM[ext], EXOTIC) + text
+    return out
+
+
+def run_flavour(ctx, rng, files, flavour, matrix):
     cmds = [c for c in triggers.CMDS if c not in SUBJECT_EXCLUDED]
+    if flavour:
+        cmds = [c for c in cmds if c not in ("file-header",)]  # the first line is the header linter's own subject
     base_jobs = [(files, c, "magic-numbers" if c != "magic-numbers" else "nesting") for c in cmds]
     base_out = runner.pmap(run_pair, base_jobs, timeout=600)
     base = {}
@@ -228,9 +251,13 @@ def run(ctx):
             if c == "file-header":
                 # header-sensitive: a comment inserted at the top of the file changes the header itself
                 forms = [x for x in forms if x not in ("next-line", "block", "file@1")]
+            if flavour:
+                forms = [x for x in forms if x in ("same-line", "next-line", "block", "file@10", "file@11")]
             for form in forms:
                 spellings = ["full"]
-                if not ctx.quick or rng.random() < 0.25:
+                if flavour:
+                    pass
+                elif not ctx.quick or rng.random() < 0.25:
                     spellings = SPELLINGS + (["alias"] if tv[0] in ALIASES else [])
                 elif form == "same-line":
                     spellings = list(SPELLINGS) + (["alias"] if tv[0] in ALIASES else [])
@@ -294,7 +321,6 @@ def run(ctx):
         jobs.append((nf, c, cell["witness"]))
         meta.append((cell, exp_c, exp_w, nf))
     outs = runner.pmap(run_pair, jobs, timeout=900)
-    matrix = Counter()
     for (cell, exp_c, exp_w, nf), o in zip(meta, outs):
         ctx.evaluations += 2
         c, w = cell["cmd"], cell["witness"]
@@ -303,9 +329,9 @@ def run(ctx):
         if not o.get("ok") or o["value"][c]["v"] is None or o["value"][w]["v"] is None:
             ctx.discrepancy("run-error:%s" % c, "variant run failed: %s" % str(o)[:300], rep, nf)
             continue
-        ctx.nontrivial([c, cell["lang"], cell["form"], cell["spelling"], cell["placement"]])
+        ctx.nontrivial([c, cell["lang"], cell["form"], cell["spelling"], cell["placement"], flavour])
         negative = cell["spelling"] in NEG_SPELLINGS or cell["placement"] == "away"
-        tag = "%s:%s:%s" % (c, cell["lang"], cell["form"])
+        tag = "%s:%s:%s%s" % (c, cell["lang"], cell["form"], flavour)
         ctx.count("cells")
         got_c, got_w = o["value"][c]["v"], o["value"][w]["v"]
         if c in ("dry", "stringly-typed"):
@@ -336,12 +362,10 @@ def run(ctx):
         a, b = Counter(map(tuple, exp_w)), Counter(map(tuple, got_w))
         if a != b:
             ok = False
-            ctx.discrepancy("witness-changed:%s:%s:%s" % (w, cell["lang"], cell["form"]) + (":bare" if cell["spelling"] == "bare" else ""),
+            ctx.discrepancy("witness-changed:%s:%s:%s%s" % (w, cell["lang"], cell["form"], flavour) + (":bare" if cell["spelling"] == "bare" else ""),
                             "directive for %s (%s, spelling=%s) on %s changed the unrelated `%s`: gone %r new %r" % (
                                 c, cell["form"], cell["spelling"], cell["file"], w, list((a - b).elements())[:2], list((b - a).elements())[:2]), rep, nf)
         matrix[(tag, "ok" if ok else "fail")] += 1
-    ctx.obs["matrix_cells_ok"] = sum(n for (t, s), n in matrix.items() if s == "ok")
-    ctx.obs["matrix_cells_fail"] = sum(n for (t, s), n in matrix.items() if s == "fail")
     ctx.obs["commands"] = cmds
     ctx.sample({"cell": {k: cells[0][k] for k in ("cmd", "file", "form", "spelling", "placement")}, "target_violation": cells[0]["target"]})
     ctx.inconclusive_if(ctx.counters["cells"] < 200, "fewer than 200 matrix cells exercised")
